@@ -187,7 +187,28 @@ func scenarioC06(x *runner.X) {
 			x.Probe(fmt.Sprintf("c06.batch-record-len-%d", boundary))
 		}
 	}
-	if boundary == 0 {
+	manyBatches := boundary == 0 && t.Bool(0.25)
+	if manyBatches {
+		// every push names all of 7..16 addresses, each address ends with 2..3 full batches and a
+		// remainder: more than a dozen batches of few addresses are in flight at once
+		nAddr = t.Range(7, 16)
+		per := 2*B + t.Range(1, B)
+		if real {
+			per = t.Range(2001, 2600)
+		}
+		for i := 0; i < per; i++ {
+			p := c06push{e: mkEntry()}
+			for a := 0; a < nAddr; a++ {
+				p.keys = append(p.keys, a)
+			}
+			if !real {
+				p.pause = t.Pick(0, 0, 0, 0, 1)
+			}
+			pushes = append(pushes, p)
+		}
+		x.Probe("c06.many-batches")
+	}
+	if boundary == 0 && !manyBatches {
 		others := t.Range(0, 3*B)
 		if real {
 			others = t.Range(0, 50)
